@@ -57,54 +57,64 @@
     connection is dropped while [b; c] wait, c is served before b.
 
     ---------------------------------------------------------------------------------------
-    pgcat (/repo/src) — the code modelled:
+    pgcat (/repo/src, tree at 2ecc068) — the code modelled:
 
     pool.rs:503-517   Pool::builder().max_size(user.pool_size).min_idle(user.min_pool_size)
                       .connection_timeout(connect_timeout).queue_strategy(Lifo | Fifo if
                       server_round_robin).test_on_check_out(false)          = [config]
-    pool.rs:793-811   pool.get(): databases[shard][i].get().await; Err => ban (never a primary:
-                      pool.rs:929) and next candidate; none left => Err(AllServersDown)
-    pool.rs:1244-1254 has_broken = is_bad() || (role != Mirror && is_unclean()); is_unclean
-                      (server.rs:1259-1264) = in_transaction || in_copy_mode || data_available ||
+    pool.rs:645-687   validate(): the first client that connects (client.rs:741) makes pgcat do
+                      ONE bb8 get() per server and drop the guard: the pool starts with one idle
+                      connection and a stored Notify permit (the harness models it as a one-off
+                      client: Checkout; ConnEstablished; Retry; TxnEndRelease)
+    pool.rs:810-828   pool.get(): databases[shard][i].get().await; Err => ban (never a primary:
+                      pool.rs:945) and next candidate; none left => Err(AllServersDown) (871)
+    pool.rs:1261-1271 has_broken = is_bad() || (role != Mirror && is_unclean()); is_unclean
+                      (server.rs:1268-1273) = in_transaction || in_copy_mode || data_available ||
                       needs_cleanup: decides the [broken] argument of every release
-    client.rs:1075-1137  checkout; Err => error_response "could not get connection from the
+    client.rs:1090-1152  checkout; Err => error_response "could not get connection from the
                       pool", [continue] (client stays usable), or with checkout_failure_limit
-                      reached => terminal error, return                     = [WaitTimeout c fatal]
-    client.rs:1139    [let mut reference = connection.0;] — the PooledConnection guard is a LOCAL
+                      reached (1131-1148) => terminal error, return         = [WaitTimeout c fatal]
+    client.rs:1154    [let mut reference = connection.0;] — the PooledConnection guard is a LOCAL
                       of the outer loop body of handle(): it is dropped at the end of the
-                      iteration (1628), by every [return]/[?] below it, and by unwinding.
-    client.rs:1175-1616  transaction loop; [break] only when !server.in_transaction() and
-                      transaction mode and !in_copy_mode (1285-1298, 1545-1555, 1596-1606), or on
-                      the idle-in-transaction timeout (1198-1215)           = [TxnEndRelease]
+                      iteration (1682), by every [return]/[?] below it, and by unwinding.
+                      (1161 [_cancel_entry] is declared after it, hence dropped before it.)
+    client.rs:1198-1670  transaction loop; [break] only when !server.in_transaction() and
+                      transaction mode and !in_copy_mode (1308-1321, 1573-1584, 1650-1661; 1608-
+                      1610 for a CopyDone/CopyFail outside COPY), or on the idle-in-transaction
+                      timeout (1221-1238)                                   = [TxnEndRelease]
                       session mode: never breaks                            = [SessionModeKeep]
-    client.rs:1621    server.checkin_cleanup().await? then the guard drops  = [TxnEndRelease c b]
+    client.rs:1675    server.checkin_cleanup().await? then the guard drops  = [TxnEndRelease c b]
 
     Every way the task can END while it holds the guard ([ExitHolding c how broken]); line
     numbers of client.rs; each drops [reference] => put_back with [broken] = has_broken:
-      XTerminate        1303-1308  'X': checkin_cleanup()?, return Ok
-      ClientSocketErr   1190-1196  read error inside the loop: checkin_cleanup()?, return Err
-      IdleTimeoutWrite  1200       error_response(..)? fails on the idle-in-transaction timeout
-      DecoderErr        1325 buffer_parse?, 1331 buffer_bind? (also "prepared statement does not
-                        exist": 1900-1912), 1337 buffer_describe?, 1350 Close::try_from?
-      Panic             any panic below 1139 unwinds through the local (e.g. a Close whose body is
-                        just "S": messages.rs:1188-1189 — observed: task result "panic")
-      ClientWriteFail   1259, 1264, 1363, 1370 ([?] on error_response / write_all);
-                        2018-2024, 1517-1526, 1588-1593 (mark_bad, return Err)
-      StatementTimeout  2088-2099  mark_bad, terminal error, Err
-      ServerError       1160 sync_parameters?; send 2049-2054 (server.rs:891-897 sets bad);
-                        recv 2076-2086 (server.rs:911-918 sets bad); 1566, 1578, 1584
-      CleanupErr        1194, 1304, 1621: checkin_cleanup()? itself fails (server.rs:1341,1365)
-      PreparedStmtErr   1442-1445, 1454-1460, 1468-1474 (register/ensure prepared statement)?
-    Ends while NOT holding ([Disconnect]): 909-912, 917, 920 (read error), 923-928 ('X'), 934,
-    941, 958, 963, 1014, 1025, 1032, 1044, 1057, 1066, 1099, 1123-1132.
+      XTerminate        1326-1331  'X': checkin_cleanup()?, return Ok
+      ClientSocketErr   1213-1219  read error inside the loop: checkin_cleanup()?, return Err
+      IdleTimeoutWrite  1223       error_response(..)? fails on the idle-in-transaction timeout
+      DecoderErr        1348 buffer_parse?, 1354 buffer_bind? (also "prepared statement does not
+                        exist": 1954-1966), 1360 buffer_describe?, 1373 Close::try_from?
+      Panic             any panic below 1154 unwinds through the local (e.g. a Close whose body is
+                        just "S": messages.rs Close::try_from reads past the end — observed: task
+                        result "panic")
+      ClientWriteFail   1282, 1287, 1391, 1398 ([?] on error_response / write_all);
+                        2072-2078, 1545-1554, 1636-1641 (mark_bad, return Err)
+      StatementTimeout  2142-2153  mark_bad, terminal error, Err
+      ServerError       1183 sync_parameters?; send 2103-2108 (server.rs send sets bad);
+                        recv 2130-2140 (server.rs recv sets bad); 1594, 1620, 1627-1634
+      CleanupErr        1217, 1327, 1675: checkin_cleanup()? itself fails (ROLLBACK / RESET I/O)
+      PreparedStmtErr   1470-1473, 1482-1488, 1496-1502 (register/ensure prepared statement)?
+    Ends while NOT holding ([Disconnect]): 924-927, 932, 935 (read error), 938-943 ('X'), 949,
+    956, 973, 978, 1029, 1040, 1047, 1059, 1072, 1081, 1114, 1138-1147.
 
-    Stays in the loop HOLDING without a transaction, in transaction mode — the F14 class
-    ([InterceptHold]): 1369-1374, an [Intercept] verdict stored at 'P' in the outer loop (998-
-    1000) is acted on at 'S' only after the checkout, inside the transaction loop, and
-    [continue]s: the client has its ReadyForQuery('I') and is idle, the connection stays in use
-    until the client's next message (confirmed on the implementation).  (1260/1265/1366 are
-    reached only inside a transaction or in session mode: for a first message the outer loop
-    has already acted on the verdict at 957-965 / 1055-1060.) *)
+    [continue] inside the transaction loop = ways to stay in it HOLDING (7; props/c04.py checks the
+    count): 1283/1288 Deny/Intercept at 'Q', 1384 Sync during COPY, 1394 Deny at 'S', 1401
+    Intercept at 'S', 1448 in the buffer drain (inner while), 1612 CopyDone/CopyFail outside COPY
+    while in a transaction or in session mode.  All but one are reached only inside a transaction
+    / COPY or in session mode.  The exception is the F14 class ([InterceptHold]), 1397-1402: an
+    [Intercept] verdict stored at 'P' in the outer loop (1011-1015) is acted on at 'S' only after
+    the checkout, inside the transaction loop, and [continue]s: the client has its
+    ReadyForQuery('I') and is idle, the connection stays in use until the client's next message
+    (confirmed on the implementation).  (For a first message 'Q' the outer loop has already acted
+    on the verdict at 972-980; a Deny stored at 'P' is acted on at 1070-1075 before the checkout.) *)
 From Coq Require Import Arith Bool List.
 Import ListNotations.
 
